@@ -1,5 +1,5 @@
 """C20 — one server per address, graceful shutdown, idle exit.  Proof: Props/C20.lean (tcp_singleton over all interleavings, idle_not_before
-over all event sequences, Unix-socket witness); tie/monitor: process census of real cold starts (TCP, Unix socket), witness replay on the real
+over all event sequences, Unix-socket witness; ShutM: idle_drain_not_before, stop_is_graceful, stop_terminates over all timed histories, tied by h_server + modeld shutdown); tie/monitor: process census of real cold starts (TCP, Unix socket), witness replay on the real
 binary, stop during an in-flight compile, measured idle exit (tools/sys_c20.py)."""
 import json, os, shutil
 from vlib import *
@@ -8,6 +8,17 @@ import sys_c20
 def run(ctx):
     findings = load_findings('C20')
     lean_props(ctx)
+    if cargo_harness(ctx, ['h_server']):
+        w = ctx.work; e = env_offline(); e['VERIF_SEED'] = str(ctx.seed)
+        n = 150 if ctx.quick() else 4000
+        rc, out, dt = sh([harness_bin('h_server'), 'gen', str(n), f'{w}/trace.txt', f'{w}/sum.json'], env=e, timeout=7200)
+        if rc != 0: ctx.broken.append('h_server crashed: ' + out[-300:])
+        else:
+            s = json.load(open(f'{w}/sum.json')); run_modeld(ctx, 'shutdown', f'{w}/trace.txt', 'shutdown')
+            ctx.evaluations += s['steps'] + s['cases']; ctx.distinct_nontrivial += s['exits_with_open_connection'] + s['exits_after_stop'] + s['cases_served_during_drain']; ctx.samples += s['samples'][:2]
+            ctx.cov['h_server'] = {k: v for k, v in s.items() if k not in ('monitor_failures', 'samples')}
+            def rp0(fl): return ('monitor-' + fl['kind'], ['trace of h_server: the real SccacheServer::run on an in-memory listener, tokio clock paused; times in ms (new <idle ms>; conn t / req t c / stop t c / close t c | answer; end horizon | exit time)', 'observed: ' + fl['detail']], '\n'.join(fl['ops']))
+            monitor_failures(ctx, s['monitor_failures'], findings, 'h_server shutdown monitor', rp0)
     if not cargo_repo_bins(ctx, ('sccache', 'sccache-dist')): return
     root = os.path.join(ctx.work, 'sys'); shutil.rmtree(root, ignore_errors=True)
     sizes, uds = ((2, 8), (3,)) if ctx.quick() else ((2, 4, 8, 16, 32, 3, 5), (2, 4, 8))
@@ -16,10 +27,12 @@ def run(ctx):
     ctx.cov.update(scenarios=res['scenarios'], clients_started=res['clients_started'])
     rp = lambda fl: ('system-' + fl['kind'], ['tools/sys_c20.py against the real sccache binary', 'observed: ' + fl['detail']], '\n'.join(fl['ops']))
     monitor_failures(ctx, res['fails'], findings, 'cold-start census / shutdown / idle monitor', rp)
+    ctx.rules.append('h_server: the real server loop (accept, ShutdownOrInactive, WaitUntilZero, drain) under a paused clock: idle periods 0 / 1 s .. 10 min, scripts of 4-17 timed events '
+                     '(connect, request, stop request, close) placed around the idle deadline and the end of the grace period to the millisecond, compared step by step with ShutM; non-trivial = exits with a connection still open, exits after a stop request, requests served during the drain')
     ctx.rules.append('cold starts with N simultaneous clients against an address with no server (TCP and Unix socket), census of server processes carrying the run\'s cache dir, every object compared with a direct compile; '
                      '--start-server twice on a Unix socket (the model witness); --stop-server with a compile in flight; idle timeout 3 s measured from the last request')
     ctx.assumptions += ['real process schedules cannot be enumerated: the observed outcomes must be among those the model allows (trace inclusion, not equality)', 'the 10 s drain and the idle timer use a logical clock in the model']
-    ctx.notes.append('no correspondence driver for the start-up model: the tie is the census (TCP: exactly what tcp_singleton allows) and the replay of the Unix witness; partial')
+    ctx.notes.append('the serving/drain/exit life of a server has a step-by-step correspondence driver (h_server + modeld shutdown); the cold-start model has none: its tie is the census (TCP: exactly what tcp_singleton allows) and the replay of the Unix witness; partial')
 
 def replay(ctx, path):
     print(open(path).read()); return 0
